@@ -40,6 +40,10 @@ def L1(ctx):
                                         *([[site_str(prog, w["fn"], w["bb"])]] if ok else [site_str(prog, w["fn"], w["bb"])]))
             continue
         if w["kind"] != "assign":
+            cons = prog.borrow_consumer(w["fn"], w["bb"], w["idx"])
+            if role == "release" and cons and callee_path(cons[1]) == "std::option::Option::<T>::take":
+                ctx.ok("L1", fk, "lock.take() on release (clears the holder)", [site_str(prog, w["fn"], w["bb"])])
+                continue
             ctx.bad("L1", fk, "mutex holder field is mutably borrowed (%s)" % w["kind"], site_str(prog, w["fn"], w["bb"]), detail="borrow")
             continue
         e = strip(body.expr_of_rvalue(w["stmt"]["rv"]))
